@@ -119,9 +119,16 @@ UPDATES = {
     "unset_and_set": (lambda: dict(unset_tags="a", tags={"a": "q", "d": "w"}, unset_fields=["p", "nope"]),
                       lambda p: (p.tags.update({"a": "q", "d": "w"}), p.tags.pop("a", None), p.fields.pop("p", None))),
     "noop_same": (lambda: dict(measurement=lambda m: m), lambda p: None),
+    "unset_field_p": (lambda: dict(unset_fields="p"), lambda p: p.fields.pop("p", None)),
+    "unset_tag_a": (lambda: dict(unset_tags=["a", "zz"]), lambda p: p.tags.pop("a", None)),
 }
+def _raise_always(_):
+    raise KeyError("callable fails")
+
+
 BAD_UPDATES = {
     "raises_second": lambda: dict(fields=_raise_on_second()),
+    "raises_first": lambda: dict(tags=_raise_always),
     "bad_static_tags": lambda: dict(tags={"a": 1}),
     "bad_time": lambda: dict(time="yesterday"),
     "nothing": lambda: dict(),
@@ -156,6 +163,7 @@ class Run:
         self.hist = []
         self.nchecks = 0
         self.stop = False
+        self.extra_props = []
         self.db = self.open()
 
     def open(self):
@@ -165,7 +173,8 @@ class Run:
         return TinyFlux(os.path.join(self.dir, "db.csv"), auto_index=auto)
 
     def note(self, props, what, detail=None):
-        if len(self.fail) < 40:
+        props = sorted(set(props) | set(self.extra_props))
+        if len(self.fail) < 400:
             what = "%s @%s/%s" % (what, self.cfg[0], "auto" if self.cfg[1] else "noauto")
             self.fail.append(dict(props=props, what=what, detail=repr(detail)[:300], cfg=list(self.cfg), history=copy.deepcopy(self.hist)))
 
@@ -241,6 +250,17 @@ class Run:
                     r = db.update(q, _measurement=m, **kw())
                 if r != exp:
                     self.note(["C03"] + (["C10"] if len(op) > 4 else []), "update[%s,%s,%s] returned %s, %d changed" % (json.dumps(op[1]), m, op[3], r, exp))
+            elif kind == "hupdall":
+                m = op[1]
+                kw, mut = UPDATES[op[2]]
+                before = [pkey(p) for p in model]
+                for p in model:
+                    if p.measurement == m:
+                        mut(p)
+                exp = sum(1 for b, p in zip(before, model) if b != pkey(p))
+                r = db.measurement(m).update_all(**kw())
+                if r != exp:
+                    self.note(["C03", "C10"], "Measurement(%s).update_all[%s] returned %s, %d changed" % (m, op[2], r, exp))
             elif kind == "updall":
                 kw, mut = UPDATES[op[1]]
                 before = [pkey(p) for p in model]
@@ -258,14 +278,14 @@ class Run:
                     q, sem = parse_query(op[2])
                     nsel = sum(1 for p in model if sem(p))
                 # static arguments are rejected up front; callables only when they run
-                must_raise = not op[1].startswith("callable_") and op[1] != "raises_second" or nsel >= (2 if op[1] == "raises_second" else 1)
+                must_raise = not (op[1].startswith("callable_") or op[1].startswith("raises_")) or nsel >= (2 if op[1] == "raises_second" else 1)
                 try:
                     if op[2] == "all":
                         db.update_all(**kw)
                     else:
                         db.update(q, **kw)
                     raised = False
-                except (ValueError, TypeError, Boom):
+                except (ValueError, TypeError, Boom, KeyError):
                     raised = True
                 if raised != must_raise:
                     self.note(["C11", "C14"], "bad update %s: raised=%s, expected %s" % (op[1], raised, must_raise))
@@ -298,6 +318,9 @@ class Run:
             return False
         if self.stop:
             return False
+        # C11: after an operation that raised, every later disagreement is also a C11 (and C06) matter
+        if kind in ("badupd", "badread") or (kind == "insm" and "BAD" in op[1]):
+            self.extra_props = ["C11", "C06"]
         self.compare_all()
         return True
 
@@ -309,9 +332,24 @@ class Run:
             self.stop = True  # later symptoms of the same history would only repeat this one
 
     # ---- observations -----------------------------------------------------
+    def check_index(self):
+        db = self.db
+        if db._auto_index and not db.index.valid:
+            self.note(["C06"], "auto_index on, but the index is invalid after read operations")
+        if db.index.valid:
+            fresh = Index()
+            fresh.build(db.all(sorted=False))
+            ix = db.index
+            for a in ("_num_items", "_tags", "_fields", "_measurements", "_timestamps", "_storage_pos_sorted_by_ts"):
+                if getattr(ix, a) != getattr(fresh, a):
+                    self.note(["C06"], "valid index differs from a rebuilt one in %s" % a, (getattr(ix, a), getattr(fresh, a)))
+                    break
+
     def compare_all(self):
         db, model = self.db, self.model
         self.nchecks += 1
+        if db.index.valid:
+            self.check_index()
         # contents
         try:
             allp = db.all(sorted=False)
@@ -320,7 +358,7 @@ class Run:
             return
         if [pkey(p) for p in allp] != [pkey(p) for p in model]:
             last = self.hist[-1][0]
-            props = {"rm": ["C02"], "drop": ["C02"], "rmall": ["C02"], "upd": ["C03"], "updall": ["C03"], "badupd": ["C11"], "insm": ["C11"]}.get(last, ["C01", "C07"])
+            props = {"rm": ["C02"], "drop": ["C02"], "rmall": ["C02"], "upd": ["C03"], "updall": ["C03"], "hupdall": ["C03", "C10"], "badupd": ["C11"], "insm": ["C11"]}.get(last, ["C01", "C07"])
             self.note(props, "contents differ after %s" % last, ([pkey(p) for p in allp][:3], [pkey(p) for p in model][:3]))
             # resynchronise so that later comparisons are meaningful
             self.model = model = [copy.deepcopy(p) for p in allp]
@@ -414,18 +452,7 @@ class Run:
             self.note(["C07"], "len(db) = %d, expected %d" % (len(db), len(model)))
         if [pkey(p) for p in db] != [pkey(p) for p in model]:
             self.note(["C07"], "iter(db) wrong")
-        # index: valid after reads; equal to a rebuilt one
-        if db._auto_index and not db.index.valid:
-            self.note(["C06"], "auto_index on, but the index is invalid after read operations")
-        if db.index.valid:
-            fresh = Index()
-            fresh.build(db.all(sorted=False))
-            ix = db.index
-            for a in ("_num_items", "_tags", "_fields", "_measurements", "_timestamps", "_storage_pos_sorted_by_ts"):
-                if getattr(ix, a) != getattr(fresh, a):
-                    self.note(["C06"], "valid index differs from a rebuilt one in %s" % a, (getattr(ix, a), getattr(fresh, a)))
-                    break
-
+        self.check_index()
     def close(self):
         try:
             self.db.close()
@@ -445,7 +472,8 @@ OPS = (
     + [["rm", "Ta==x", None], ["rm", ["~", "Fp==1"], None], ["rm", "t<=1", None], ["rm", ["&", "Ta==x", "Fp>0"], "m0"], ["rm", "Fq.exists", "m0", "handle"], ["rm", "M.test", None]]
     + [["drop", "m0"], ["drop", "m1", "handle"], ["rmall"]]
     + [["upd", "Ta==x", None, "tags_static"], ["upd", "Fp>0", "m0", "fields_callable"], ["upd", "t>=2", None, "time_callable"], ["upd", ["~", "Fp==1"], None, "meas_static"],
-       ["upd", "Tb.exists", None, "unset_and_set"], ["upd", "T.noop", "m0", "noop_same", "handle"], ["updall", "fields_callable"], ["updall", "time_callable"]]
+       ["upd", "Tb.exists", None, "unset_and_set"], ["upd", "T.noop", "m0", "noop_same", "handle"], ["updall", "fields_callable"], ["updall", "time_callable"],
+       ["hupdall", "m0", "unset_field_p"], ["hupdall", "m0", "unset_tag_a"], ["upd", "Fp>0", None, "unset_field_p"], ["hupdall", "m1", "tags_static"]]
     + [["badupd", k, "all"] for k in BAD_UPDATES] + [["badupd", "raises_second", "Ta==x"]]
     + [["badread", "tags."], ["badread", 5], ["reindex"], ["reopen"], ["len"]]
 )
